@@ -377,9 +377,7 @@ Definition site_table : list (site * why) := [
      PutOwnedDropped "node popped and fully discarded; Peek slices are invalid after Discard (gnet.Reader doc)");
   (("pkg/buffer/linkedlist/linked_list_buffer.go", "Buffer.ReadFrom", "byteslice.Get", "minRead"), GetSite);
   (("pkg/buffer/linkedlist/linked_list_buffer.go", "Buffer.ReadFrom", "byteslice.Put", "b"),
-     PutOwnedDropped "local slice b[:m] never linked into the list (EOF)");
-  (("pkg/buffer/linkedlist/linked_list_buffer.go", "Buffer.ReadFrom", "byteslice.Put", "b"),
-     PutOwnedDropped "local slice b[:m] never linked into the list (error)");
+     PutOwnedDropped "local slice b of an empty read (m = 0): never linked into the list");
   (("pkg/buffer/linkedlist/linked_list_buffer.go", "Buffer.WriteTo", "byteslice.Put", "b.buf"),
      PutOwnedDropped "node popped and fully written");
   (("pkg/buffer/linkedlist/linked_list_buffer.go", "Buffer.Reset", "byteslice.Put", "b.buf"),
@@ -391,6 +389,13 @@ Definition site_table : list (site * why) := [
 ].
 
 Definition justified_sites : list site := map fst site_table.
+
+Definition site_eqb (a b : site) : bool :=
+  let '(a1, a2, a3, a4) := a in
+  let '(b1, b2, b3, b4) := b in
+  String.eqb a1 b1 && String.eqb a2 b2 && String.eqb a3 b3 && String.eqb a4 b4.
+
+Definition site_in (a : site) (l : list site) : bool := existsb (site_eqb a) l.
 
 (* ------------------------------------------------------------------ *)
 (* trace runner: family "pool"
